@@ -880,8 +880,10 @@ PTRef ArithLogic::mkConst(SRef s, char const * name) {
         if (s == sort_REAL)
             stringToRational(rat, name);
         else {
-            if (not isIntString(name)) throw ApiException("Not parseable as an integer");
-            rat = strdup(name);
+            if (not isIntString(name) or (name[0] == '-' and name[1] == '\0')) throw ApiException("Not parseable as an integer");
+            // One identity per value: 007 and -0 are the constants 7 and 0 (the Real path normalises in stringToRational)
+            std::string const canonical = Number(name).get_str();
+            rat = strdup(canonical.c_str());
         }
         ptr = mkVar(s, rat, true);
         // Store the value of the number as a real
